@@ -77,11 +77,16 @@ def boxed_ranged(rng, name="bx"):
     bnds = [rng.choice([(0, 1), (0, 4), (-2, 3), (1, 6), (-5, -1), (0, 10)]) for _ in range(n)]
     x0 = [F(rng.randint(l, u)) for l, u in bnds]
     cols = [(F(rng.choice([-7, -5, -3, -2, -1, 1, 2, 3, 4, 6])), F(l), F(u)) for l, u in bnds]
+    # a few columns without lower bound (upper-bounded only, or free): they enter the basis DEcreasing; each of them gets an entry
+    # in row 0, which is made ranged or an equation below, so the LP stays bounded (every other column is boxed)
+    loose = [j for j in range(n) if rng.random() < 0.25][: max(1, n // 3)] if rng.random() < 0.6 else []
+    for j in loose:
+        cols[j] = (cols[j][0], NINF, INF if rng.random() < 0.4 else cols[j][2])
     rows = []
     for i in range(m):
-        ent = [(j, F(rng.choice([-3, -2, -1, 1, 2, 3, 5]))) for j in range(n) if rng.random() < 0.7] or [(i % n, F(1))]
+        ent = [(j, F(rng.choice([-3, -2, -1, 1, 2, 3, 5]))) for j in range(n) if rng.random() < 0.7 or (i == 0 and j in loose)] or [(i % n, F(1))]
         a = sum(v * x0[j] for j, v in ent)
-        s = rng.choice("RRRLGE")
+        s = rng.choice("RRRLGE") if not (i == 0 and loose) else rng.choice("RRE")
         if s == "R":
             lo_, w = a - rng.randint(0, 6), F(rng.randint(1, 9))
             rows.append(("R", lo_, w if a <= lo_ + w else a - lo_ + rng.randint(0, 2), ent))
